@@ -121,6 +121,10 @@ class Ctx:
                 continue
             if callable(v) and not hasattr(v, '__dict__'):
                 continue
+            if type(v).__name__ == 'Generator':
+                if not (v.bit_generator.state == old[k].bit_generator.state):
+                    return {'status': 'violated', 'clause': 'frame:%s' % k, 'observed': 'generator argument %s was advanced' % k}
+                continue
             if not _same(v, old[k]):
                 return {'status': 'violated', 'clause': 'frame:%s' % k, 'observed': 'argument %s was modified' % k}
         env_post = dict(old)
@@ -178,6 +182,16 @@ class Ctx:
             for k, v in kwargs.items():
                 if isinstance(v, np.ndarray) and isinstance(result, np.ndarray) and np.shares_memory(v, result):
                     return {'status': 'violated', 'clause': 'fresh:result', 'observed': 'result shares memory with argument %s' % k}
+            if isinstance(result, np.ndarray) and result.size > 0:
+                # a fresh result is also not the object an identical earlier / later call hands out (memoised or cached arrays)
+                st = np.random.get_state()
+                try:
+                    again = fn(**{k: copy.deepcopy(v) for k, v in old.items() if k in kwargs})
+                except Exception:      # noqa: BLE001
+                    again = None
+                np.random.set_state(st)
+                if isinstance(again, np.ndarray) and np.shares_memory(again, result):
+                    return {'status': 'violated', 'clause': 'fresh:result', 'observed': 'two identical calls return arrays sharing memory'}
         return {'status': 'ok', 'outcome': 'return'}
 
 
@@ -209,6 +223,16 @@ def _same(a, b):
         return bool(a == b)
     except Exception:
         return a is b
+
+
+def _same_shapes(a, b):
+    has = False
+    for n in b:
+        if isinstance(b[n], np.ndarray):
+            if not (isinstance(a.get(n), np.ndarray) and a[n].shape == b[n].shape and a[n].dtype == b[n].dtype and a[n].flags.writeable):
+                return False
+            has = True
+    return has
 
 
 def _short(x):
@@ -311,6 +335,16 @@ def gen_values(sort_src, rng, p_hint, budget):
                         var = var * 1e-10
                     out.append(LGANM(W, mu, var))
             return out
+        if cls.endswith('BayesianNetwork'):
+            import sempler.semi as semi
+            if 'e=' not in s:
+                return [object.__new__(semi.BayesianNetwork)]
+            out = []
+            for e in (1, 2, 3):
+                o = object.__new__(semi.BayesianNetwork)
+                o.e = e
+                out.append(o)
+            return out
         if cls.endswith('NormalDistribution'):
             from sempler.normal_distribution import NormalDistribution
             if 'mean=' not in s:
@@ -362,7 +396,8 @@ def search(ctx, q, seed=0, budget=300, max_calls=20000, stop_on_first=True):
         for cn in cnames:
             vals = []
             for cv in cases[cn]:
-                vals += {'int': [0, 1, 2, 3, 42], 'none': [None], 'empty_dict': [{}], 'dict': _iv_dicts(), 'rpair': [(0, 1), (0.5, 0.5), (-2.0, -1.0)], 'arr1': [np.array(v, dtype=float) for k in (1, 2, 3) for v in itertools.product((1, 2.5), repeat=k)] + [np.array([1, 2])], 'pair': [(a, b) for a in range(0, 4) for b in range(a, 5)], 'triple': [(1, 2, 3), (0, 0, 0)]}.get(cv, [cv]) if isinstance(cv, str) else [cv]
+                vals += {'int': [0, 1, 2, 3, 42], 'none': [None], 'empty_dict': [{}], 'dict': _iv_dicts(), 'gen': [np.random.default_rng(5)], 'arrlist': [[np.zeros((3, 2)), np.ones((1, 2))], [np.zeros((2, 3))], [], [np.zeros((2, 2)), np.zeros((2, 3))]], 'real': [2.5, -1.0], 'intlist': [[2, 3], [1], [2, 3, 4], [0, 1], [], [5, -1]], 'notarray': ['x', 5, (1, 2)],
+                         'arr2': [np.array([[0, 1.0], [0, 0]]), np.array([[0, 1.0, 1], [0, 0, -1], [0, 0, 0]]), np.array([[0, 1.0], [1, 0]]), np.array([[0, 1.0, 0], [0, 0, 0]])], 'rpair': [(0, 1), (0.5, 0.5), (-2.0, -1.0)], 'arr1': [np.array(v, dtype=float) for k in (1, 2, 3) for v in itertools.product((1, 2.5), repeat=k)] + [np.array([1, 2])], 'pair': [(a, b) for a in range(0, 4) for b in range(a, 5)], 'triple': [(1, 2, 3), (0, 0, 0)]}.get(cv, [cv]) if isinstance(cv, str) else [cv]
             doms.append(vals)
         doms += [gen_values(ast.unparse(a), rng, None, budget) for _, a in gnames]
     except KeyError as e:
@@ -380,6 +415,7 @@ def search(ctx, q, seed=0, budget=300, max_calls=20000, stop_on_first=True):
         else:
             for _ in range(max_calls):
                 yield tuple(rng.choice(d) for d in doms)
+    prev = None          # the argument objects of the last admissible call (history probe below)
     for combo in combos():
         kwargs = {n: copy.deepcopy(v) for n, v in zip(names, combo)}
         ghost = {g[0]: v for g, v in zip(gnames, combo[len(names):])}
@@ -387,6 +423,24 @@ def search(ctx, q, seed=0, budget=300, max_calls=20000, stop_on_first=True):
         if r['status'] == 'pre-false':
             continue
         calls += 1
+        if r['status'] == 'ok' and prev is not None and calls % 2 == 0 and _same_shapes(prev[0], kwargs):
+            # history probe: the SAME argument objects as in the previous call, overwritten in place with the current values;
+            # the contract must hold again (results may depend on the current contents only, never on object identity / earlier calls)
+            reused = {}
+            for n in kwargs:
+                if isinstance(kwargs[n], np.ndarray):
+                    np.copyto(prev[0][n], kwargs[n])
+                    reused[n] = prev[0][n]
+                else:
+                    reused[n] = copy.deepcopy(kwargs[n])
+            r2 = ctx.check_call(q, reused, c, ghost)
+            if r2['status'] == 'violated' and witness is None:
+                witness = {'function': q, 'inputs': {n: _jsonable(v) for n, v in zip(names, combo)}, 'ghost': {g[0]: _jsonable(v) for g, v in zip(gnames, combo[len(names):])},
+                           'history_inplace': prev[1], 'clause': r2['clause'], 'observed': r2['observed'] + ' (after an earlier call on the same array objects holding other contents)'}
+                if stop_on_first:
+                    break
+        if r['status'] == 'ok':
+            prev = (kwargs, {n: _jsonable(v) for n, v in zip(names, combo)})
         key = repr([(n, _jsonable(v)) for n, v in zip(names, combo)])
         if key not in seen:
             seen.add(key)
@@ -415,6 +469,8 @@ def _jsonable(v):
         return {'dict': [[_jsonable(k), _jsonable(x)] for k, x in v.items()]}
     if isinstance(v, list):
         return [_jsonable(x) for x in v]
+    if type(v).__name__ == 'Generator':
+        return {'generator': 'numpy.random.default_rng(5)'}
     if hasattr(v, '__dict__') and type(v).__module__.startswith('sempler'):
         return {'obj': type(v).__module__ + '.' + type(v).__name__, 'attrs': {k: _jsonable(x) for k, x in vars(v).items()}}
     return v
@@ -430,6 +486,8 @@ def _unjson(v):
             return tuple(_unjson(x) for x in v['tuple'])
         if 'dict' in v:
             return {(_hashable(_unjson(k))): _unjson(x) for k, x in v['dict']}
+        if 'generator' in v:
+            return np.random.default_rng(5)
         if 'obj' in v:
             mod, cls = v['obj'].rsplit('.', 1)
             o = object.__new__(getattr(importlib.import_module(mod), cls))
@@ -455,6 +513,13 @@ def replay(ctx, wit):
         for k in gn:
             ghost.setdefault(k, 3)
     kwargs = {k: v for k, v in kwargs.items() if k not in gn}
+    if wit.get('history_inplace'):
+        first = {k: _unjson(v) for k, v in wit['history_inplace'].items() if k not in gn}
+        ctx.check_call(wit['function'], first, ghost=ghost)
+        for k in kwargs:
+            if isinstance(kwargs[k], np.ndarray):
+                np.copyto(first[k], kwargs[k])
+                kwargs[k] = first[k]
     return ctx.check_call(wit['function'], kwargs, ghost=ghost)
 
 
